@@ -13,6 +13,10 @@ use h264_reader::Context;
 use std::convert::TryFrom;
 use std::io::BufRead;
 
+fn variant(s: &str) -> String {
+    s.split(|c| c == '(' || c == '{').next().unwrap_or("").trim().to_string()
+}
+
 pub fn parse_in_ctx(ctx: &mut Context, nal: &RefNal<'_>) -> String {
     let hdr = match nal.header() {
         Ok(h) => h,
@@ -47,7 +51,7 @@ pub fn parse_in_ctx(ctx: &mut Context, nal: &RefNal<'_>) -> String {
                         break;
                     }
                     Err(e) => {
-                        v.push(format!("E:{}", canon(&format!("{:?}", e).split('(').next().unwrap_or(""))));
+                        v.push(format!("E:{}", variant(&format!("{:?}", e))));
                         break;
                     }
                 }
@@ -58,7 +62,7 @@ pub fn parse_in_ctx(ctx: &mut Context, nal: &RefNal<'_>) -> String {
             let mut r = nal.rbsp_bits();
             match SliceHeader::from_bits(ctx, &mut r, hdr) {
                 Ok((h, s, p)) => format!("slice:ok:{};{};{}", canon(&h), s.seq_parameter_set_id.id(), p.pic_parameter_set_id.id()),
-                Err(e) => format!("slice:E:{}", canon(&format!("{:?}", e).split('(').next().unwrap_or(""))),
+                Err(e) => format!("slice:E:{}", variant(&format!("{:?}", e))),
             }
         }
         t => format!("other:{}", t.id()),
@@ -95,7 +99,9 @@ pub fn cmd_pipeline(args: &[&str], out: &mut Vec<String>) {
                 }
             }
             let parsed = if nal.is_complete() { parse_in_ctx(&mut ctx, &nal) } else { "-".to_string() };
-            calls.push(format!("N:{};{};{}", hex(&bytes), nal.is_complete() as u8, parsed));
+            // incomplete invocations are summarised (length + last bytes): the full bytes of every NAL are printed once, when complete
+            let shown = if nal.is_complete() { hex(&bytes) } else { format!("#{}.{}", bytes.len(), hex(&bytes[bytes.len().saturating_sub(4)..])) };
+            calls.push(format!("N:{};{};{}", shown, nal.is_complete() as u8, parsed));
             let d = policy.get(k).copied().unwrap_or(b'B');
             k += 1;
             if d == b'I' {
